@@ -143,10 +143,23 @@ func includeFun(t *template.Template, includedNames map[string]int) func(string,
 	}
 }
 
+// tplDepthKey is the includedNames slot that counts nested tpl calls. It cannot clash with the
+// name of a defined template in practice (template names come from chart file paths and
+// define actions).
+const tplDepthKey = "\x00tpl nesting depth"
+
 // As does 'tpl', so that nested calls to 'tpl' see the templates
 // defined by their enclosing contexts.
 func tplFun(parent *template.Template, includedNames map[string]int, strict bool) func(string, interface{}) (string, error) {
 	return func(tpl string, vals interface{}) (string, error) {
+		// Bound the nesting of tpl calls the same way include is bounded: a value that (directly
+		// or indirectly) calls tpl on itself would otherwise recurse until the process dies.
+		if includedNames[tplDepthKey] > recursionMaxNums {
+			return "", errors.Wrapf(fmt.Errorf("unable to execute template"), "tpl calls are nested deeper than %d levels", recursionMaxNums)
+		}
+		includedNames[tplDepthKey]++
+		defer func() { includedNames[tplDepthKey]-- }()
+
 		t, err := parent.Clone()
 		if err != nil {
 			return "", errors.Wrapf(err, "cannot clone template")
